@@ -856,3 +856,20 @@ Proof.
   destruct (Nat.leb (length l) k); [reflexivity|].
   destruct (nth_error l k) as [st|]; [destruct st|]; destruct op; discriminate.
 Qed.
+
+(* what is served after a cache loss is served again, unchanged, by every later fetch (also after a restart: the refilled
+   file is an ordinary cache file) *)
+Lemma refetch_stable : forall remote recovered served_form m id m1 b,
+  cs_fetch_refill remote recovered served_form true m id = (m1, Some b) ->
+  cs_fetch_refill remote recovered served_form true m1 id = (m1, Some b).
+Proof.
+  intros remote recovered served_form m id m1 b H. unfold cs_fetch_refill in *.
+  destruct (cs_store_get (m_store m) id) as [x|] eqn:E.
+  - injection H as H1 H2. subst. rewrite E. reflexivity.
+  - destruct (recovered id); [discriminate|]. destruct (remote id) as [y|]; [|discriminate].
+    injection H as H1 H2. subst m1 b. cbn [m_store]. unfold cs_store_get. cbn [find fst]. rewrite N.eqb_refl. reflexivity.
+Qed.
+
+Lemma failed_start_keeps_view : forall remote recovered m,
+  cs_view remote recovered (cs_failed_start true m) = cs_view remote recovered m.
+Proof. reflexivity. Qed.
